@@ -49,6 +49,8 @@ class Mon:
         self.max_violations = 400
         self.recipes = {}         # id(recipe) -> list of (obj, fingerprint) handed to it
         self.opstack = []
+        self.addr_override = {}   # id(slicer) -> (index list, shape, slicer): wells a sub-sliced slicer is expected to address
+        self.kf03_objects = {}    # id -> container: outcomes of the recorded finding KF03 (kept alive so ids stay unique)
 
     # ----------------------------------------------------------------------------------------------
     @contextlib.contextmanager
